@@ -169,7 +169,7 @@ fn random_projections(src: &mut Src, obs: &mut Obs) -> Res {
 
 /// numbers: integer / float / exponent spellings compare alike, on both sides of every operator
 fn random_numbers(src: &mut Src, obs: &mut Obs) -> Res {
-    let vals = [0i64, 1, -1, 10, 100, -100, 7, 1000, 120, 5];
+    let vals = [0i64, 1, -1, 10, 100, -100, 7, 1000, 120, 5, 110, 410, 115, 11, 33, 1234, -297];
     let a = *src.pick(&vals);
     let elems: Vec<J> = vals.iter().map(|x| if src.bool() { J::Int(*x) } else { J::Float(*x as f64) }).collect();
     let doc = J::Arr(elems);
